@@ -50,7 +50,7 @@ type ev map[string]any
 
 var (
 	fontCache = map[string]*dsl.Font{}
-	watchdog  = 10 * time.Second
+	watchdog  = 60 * time.Second
 	settle    = 3 * time.Second
 )
 
